@@ -492,7 +492,11 @@ func (e *Engine) loadPx(st *State, px *PtrX, T types.Type) Val {
 	case PLocal:
 		c := st.Cells[px.Cell]
 		if c.Spill != nil {
-			at := c.Typ.Underlying().(*types.Array)
+			at, isArr := c.Typ.Underlying().(*types.Array)
+			if !isArr || opaqueNamed(c.Typ) {
+				// a local object that escaped into the heap: it now lives at reference Spill
+				return e.loadPx(st, &PtrX{Kind: PField, Ref: c.Spill, Root: c.Typ, Path: px.Path, Elem: -1}, T)
+			}
 			if px.Elem >= 0 {
 				return e.loadPx(st, &PtrX{Kind: PElem, Ref: c.Spill, Idx: tb.Int(int64(px.Elem)), Root: at.Elem(), Path: px.Path, Elem: -1}, T)
 			}
@@ -553,7 +557,11 @@ func (e *Engine) storePx(st *State, px *PtrX, T types.Type, v Val) {
 	case PLocal:
 		c := st.Cells[px.Cell]
 		if c.Spill != nil {
-			at := c.Typ.Underlying().(*types.Array)
+			at, isArr := c.Typ.Underlying().(*types.Array)
+			if !isArr || opaqueNamed(c.Typ) {
+				e.storePx(st, &PtrX{Kind: PField, Ref: c.Spill, Root: c.Typ, Path: px.Path, Elem: -1}, T, v)
+				return
+			}
 			if px.Elem >= 0 {
 				e.storePx(st, &PtrX{Kind: PElem, Ref: c.Spill, Idx: tb.Int(int64(px.Elem)), Root: at.Elem(), Path: px.Path, Elem: -1}, T, v)
 				return
@@ -631,6 +639,18 @@ func (e *Engine) escape(st *State, T types.Type, v Val) Val {
 			if x.Kind == PField && x.Path == "" {
 				continue
 			}
+			if x.Kind == PLocal && x.Path == "" && x.Elem < 0 {
+				// pointer to a local object: the object escapes, move it into the heap
+				if _, isArr := st.Cells[x.Cell].Typ.Underlying().(*types.Array); !isArr {
+					ref := e.spillObject(st, x.Cell)
+					for i, l := range ls {
+						if l.Path == path {
+							out.T[i] = ref
+						}
+					}
+					continue
+				}
+			}
 			panic(e.unsupported("interior/local pointer stored into the heap (" + path + " of " + T.String() + ")"))
 		case *SliceX:
 			idx := -1
@@ -687,6 +707,41 @@ func (e *Engine) materialise(st *State, v Val, sliceT types.Type) Val {
 		capN = c.Typ.Underlying().(*types.Array).Len() - int64(sx.Lo)
 	}
 	return Val{T: []*Term{arr, tb.Int(int64(sx.Lo)), tb.Int(int64(n)), tb.Int(capN)}}
+}
+
+// spillObject moves a local (lazily allocated) object into the heap and returns its reference.
+func (e *Engine) spillObject(st *State, cell int) *Term {
+	c := st.Cells[cell]
+	if c.Spill != nil {
+		return c.Spill
+	}
+	r := e.newRef(st)
+	v := c.V
+	c.Spill = r
+	c.V = Val{}
+	st.Cells[cell] = c
+	if st.Disc != nil {
+		st.Disc.Cells[cell] = true
+	}
+	e.storePx(st, &PtrX{Kind: PField, Ref: r, Root: c.Typ, Elem: -1}, c.Typ, v)
+	return r
+}
+
+// plainPtr turns a pointer value into a plain reference (spilling a local object if necessary).
+func (e *Engine) plainPtr(st *State, p Val) Val {
+	px, ok := p.ann("").(*PtrX)
+	if !ok {
+		return p
+	}
+	if px.Kind == PField && px.Path == "" {
+		return scalar(px.Ref)
+	}
+	if px.Kind == PLocal && px.Path == "" && px.Elem < 0 {
+		if _, isArr := st.Cells[px.Cell].Typ.Underlying().(*types.Array); !isArr {
+			return scalar(e.spillObject(st, px.Cell))
+		}
+	}
+	return p
 }
 
 // spill moves a local array cell into heap storage and returns the backing array ref.
